@@ -39,6 +39,7 @@ type c13Req struct {
 	Dst   int   // 0 own A1, 1 own A2, 2 foreign, 3 unassigned
 	Cuts  []int // fragment boundaries in payload bytes of the ICMP message (8-aligned); nil = unfragmented
 	Order []int // arrival order of fragments
+	Split int   `json:",omitempty"` // > 0: the (unfragmented) packet is handed over as two views cut at this byte
 }
 
 var (
@@ -151,6 +152,8 @@ func (w *c13World) round(reqs []c13Req, burst bool) *c13Fail {
 			if burst {
 				port := w.r.n.Ports[1]
 				port.disp.DeliverNetworkPacket(port, "", "", tcpipProto(proto(q)), chunked(p))
+			} else if q.Split > 0 && q.Split < len(p) {
+				w.r.w.InjectSplit(w.r.n, 1, tcpipProto(proto(q)), p, q.Split, "", "")
 			} else {
 				w.r.w.Inject(w.r.n, 1, tcpipProto(proto(q)), p, "", "")
 			}
@@ -228,7 +231,7 @@ func tcpipAddr(b []byte) tcpipAddress { return tcpipAddress(b) }
 var c13IDs = []uint16{0, 1, 0x7fff, 0x8000, 0xffff}
 
 func c13Jobs(tier string) []string {
-	jobs := []string{"idseq:4", "idseq:6", "dest:4", "dest:6", "burst:4", "burst:6", "frag:4", "frag:6"}
+	jobs := []string{"idseq:4", "idseq:6", "dest:4", "dest:6", "burst:4", "burst:6", "frag:4", "frag:6", "views:4", "views:6"}
 	for i := 0; i < 8; i++ {
 		jobs = append(jobs, fmt.Sprintf("len:4:%d/8", i), fmt.Sprintf("len:6:%d/8", i))
 	}
@@ -313,6 +316,20 @@ func c13Run(job, tier string, deadline time.Time) *engine.Result {
 		}
 		// mixed
 		do([]c13Req{{V6: v6, Ident: 1, Seq: 1, Len: 8, Dst: 0}, {V6: v6, Ident: 1, Seq: 2, Len: 8, Dst: 2}, {V6: v6, Ident: 1, Seq: 3, Len: 8, Dst: 1}, {V6: v6, Ident: 1, Seq: 4, Len: 8, Dst: 3}}, false)
+	case "views":
+		// the request reaches the stack as two buffers (a link endpoint with small receive
+		// buffers): every cut position inside the payload, for three payload lengths
+		hdr := 20
+		if v6 {
+			hdr = 40
+		}
+		// (the echo header itself stays in the first buffer, as with every link endpoint of the
+		// repository: the stack reads headers from the first view by design)
+		for _, l := range []int{5, 64, 65} {
+			for cut := hdr + 8; cut < hdr+8+l; cut++ {
+				do([]c13Req{{V6: v6, Ident: 0x4242, Seq: uint16(cut), Len: l, Fill: 1, Split: cut}}, false)
+			}
+		}
 	case "burst":
 		for _, k := range []int{1, 9, 10, 11, 14} {
 			var reqs []c13Req
